@@ -66,6 +66,7 @@ package core
 //@   ensures ret == nil ==> exists k :: k >= 0 && anc(k) != nil && anc(k).HasExplicitContext && core.currentContextDirective == anc(k).Parent
 //@        && (forall j :: 0 <= j && j < k ==> anc(j) != nil && !anc(j).HasExplicitContext)
 //@   ensures ret != nil ==> exists k :: k >= 0 && anc(k) == nil && (forall j :: 0 <= j && j < k ==> anc(j) != nil && !anc(j).HasExplicitContext)
+//@   ensures ret == nil && core.currentContextDirective != nil ==> 0 <= core.currentContextDirective.depth
 //@   ensures [C02] ret != nil ==> ret.file == core.scanner.file && ret.index == core.scanner.curIndex - 1
 //@   loop 1 invariant core.currentContextDirective == anc(iter) && (core.currentContextDirective != nil ==> 0 <= core.currentContextDirective.depth)
 //@   loop 1 invariant forall j :: 0 <= j && j < iter ==> anc(j) != nil && !anc(j).HasExplicitContext
